@@ -46,9 +46,30 @@ class Arr:
 
 @dataclass(frozen=True)
 class Sym:
-    """A symbolic read that is constant during a scenario (configuration)."""
+    """A symbolic read that is constant during a scenario (configuration).
+    ``nonnull``: known not to be None (a module-level object, an enum member)."""
 
     text: str
+    nonnull: bool = False
+
+
+@dataclass(frozen=True)
+class ExcVal:
+    """An exception object: class and constructor arguments."""
+
+    cls: str
+    args: tuple = ()
+    kwargs: tuple = ()
+
+    def get(self, name: str, default=None):
+        return dict(self.kwargs).get(name, default)
+
+
+@dataclass(frozen=True)
+class Raised:
+    """Result of an expression whose evaluation raised (only with ``track_raises``)."""
+
+    exc: ExcVal
 
 
 @dataclass(frozen=True)
@@ -106,6 +127,9 @@ class Interp:
         self.hooks = hooks
         self._list_counter = 0
         self.max_depth = 12
+        #: legacy (False): a path that raises simply ends.  True: it is an outcome with
+        #: flow "raise" and the exception value; try/except is interpreted.
+        self.track_raises = False
 
     # ----------------------------------------------------------- conditions
     def truth(self, v, st: State, text: str) -> list[tuple[State, bool]]:
@@ -135,6 +159,15 @@ class Interp:
         return out
 
     # ---------------------------------------------------------- expressions
+    def _ev(self, e, env, st, func, depth, out):
+        """Sub-evaluation: yields the normal (state, value) outcomes; outcomes that raised
+        are appended to ``out`` (they are results of the enclosing expression as well)."""
+        for s1, v in self.eval(e, env, st, func, depth):
+            if isinstance(v, Raised):
+                out.append((s1, v))
+            else:
+                yield s1, v
+
     def eval(self, e: ast.AST, env: dict, st: State, func: Func, depth: int) -> list[tuple[State, Any]]:
         if isinstance(e, ast.Constant):
             return [(st, e.value)]
@@ -143,18 +176,18 @@ class Interp:
                 return [(st, env[e.id])]
             q = self.repo.resolve_in_module(func.module, e.id)
             if q is not None:
-                return [(st, Sym(q))]
+                return [(st, Sym(q, True))]
             return [(st, Sym(e.id))]
         if isinstance(e, ast.Attribute):
             out = []
-            for s1, base in self.eval(e.value, env, st, func, depth):
+            for s1, base in self._ev(e.value, env, st, func, depth, out):
                 out += self.getattr(base, e.attr, s1, func, depth)
             return out
         if isinstance(e, ast.BoolOp):
             return self._boolop(e, env, st, func, depth)
         if isinstance(e, ast.UnaryOp):
             out = []
-            for s1, v in self.eval(e.operand, env, st, func, depth):
+            for s1, v in self._ev(e.operand, env, st, func, depth, out):
                 if isinstance(e.op, ast.Not):
                     for s2, b in self.truth(v, s1, ""):
                         out.append((s2, not b))
@@ -167,7 +200,7 @@ class Interp:
             return self._compare(e, env, st, func, depth)
         if isinstance(e, ast.IfExp):
             out = []
-            for s1, c in self.eval(e.test, env, st, func, depth):
+            for s1, c in self._ev(e.test, env, st, func, depth, out):
                 for s2, b in self.truth(c, s1, ""):
                     out += self.eval(e.body if b else e.orelse, env, s2, func, depth)
             return out
@@ -176,6 +209,9 @@ class Interp:
         if isinstance(e, ast.List):
             out = []
             for s1, vals in self._seq(e.elts, env, st, func, depth, tuple):
+                if isinstance(vals, Raised):
+                    out.append((s1, vals))
+                    continue
                 self._list_counter += 1
                 s2 = s1.copy()
                 s2.lists[self._list_counter] = tuple(vals)
@@ -183,9 +219,11 @@ class Interp:
             return out
         if isinstance(e, ast.Subscript):
             out = []
-            for s1, base in self.eval(e.value, env, st, func, depth):
-                if isinstance(base, tuple) and isinstance(e.slice, ast.Constant) and isinstance(e.slice.value, int):
+            for s1, base in self._ev(e.value, env, st, func, depth, out):
+                if isinstance(base, tuple) and isinstance(e.slice, ast.Constant) and isinstance(e.slice.value, int) and -len(base) <= e.slice.value < len(base):
                     out.append((s1, base[e.slice.value]))
+                elif isinstance(base, ListRef) and isinstance(e.slice, ast.Constant) and isinstance(e.slice.value, int) and -len(s1.lists.get(base.id, ())) <= e.slice.value < len(s1.lists.get(base.id, ())):
+                    out.append((s1, s1.lists[base.id][e.slice.value]))
                 elif isinstance(base, (Arr, Pt)):
                     out.append((s1, join(base)))
                 else:
@@ -193,8 +231,8 @@ class Interp:
             return out
         if isinstance(e, ast.BinOp):
             out = []
-            for s1, l in self.eval(e.left, env, st, func, depth):
-                for s2, r in self.eval(e.right, env, s1, func, depth):
+            for s1, l in self._ev(e.left, env, st, func, depth, out):
+                for s2, r in self._ev(e.right, env, s1, func, depth, out):
                     if isinstance(l, (Arr, Pt)) or isinstance(r, (Arr, Pt)):
                         out.append((s2, join(l, r)))
                     elif isinstance(l, Sym) or isinstance(r, Sym):
@@ -210,17 +248,83 @@ class Interp:
             return [(st, TOP)]
         if isinstance(e, ast.JoinedStr):
             return [(st, TOP)]
+        if isinstance(e, (ast.GeneratorExp, ast.ListComp, ast.SetComp)):
+            return self._comprehension(e, env, st, func, depth)
+        if isinstance(e, ast.Set):
+            return self._seq(e.elts, env, st, func, depth, tuple)
+        if isinstance(e, ast.Lambda):
+            f2 = getattr(e, "_func", None)
+            return [(st, Bound(f2.qualname, None) if f2 is not None else TOP)]
         raise AnalysisError(f"abstract interpreter: unsupported expression `{ast.unparse(e)[:60]}` in {func.qualname}")
 
     def _seq(self, elts, env, st, func, depth, ctor):
         outs = [(st, [])]
+        raised = []
         for x in elts:
             nxt = []
             for s1, acc in outs:
-                for s2, v in self.eval(x, env, s1, func, depth):
+                for s2, v in self._ev(x, env, s1, func, depth, raised):
                     nxt.append((s2, acc + [v]))
             outs = nxt
-        return [(s, ctor(a)) for s, a in outs]
+        return [(s, ctor(a)) for s, a in outs] + raised
+
+    def _concrete_items(self, it, st: State):
+        if isinstance(it, ListRef):
+            return st.lists.get(it.id, ())
+        if isinstance(it, (tuple, list)) and not (it and it[0] == "shape"):
+            return tuple(it)
+        return None
+
+    def _comprehension(self, e, env, st, func, depth):
+        """Comprehensions over concrete iterables: a tuple (generator / set) or a new list."""
+        results: list = []
+        raised: list = []
+
+        def rec(gi: int, env1: dict, s1: State, acc: tuple):
+            if gi == len(e.generators):
+                for s2, v in self._ev(e.elt, env1, s1, func, depth, raised):
+                    yield s2, acc + (v,), env1
+                return
+            g = e.generators[gi]
+            for s2, it in self._ev(g.iter, env1, s1, func, depth, raised):
+                items = self._concrete_items(it, s2)
+                if items is None:
+                    raise AnalysisError(f"abstract interpreter: comprehension over a non-concrete iterable at {func.where(e)}")
+                cur = [(s2, acc)]
+                for item in items:
+                    nxt = []
+                    for s3, acc3 in cur:
+                        s4, env4 = self._assign(g.target, item, dict(env1), s3, func, depth)
+                        conds = [(s4, True)]
+                        for c in g.ifs:
+                            c2 = []
+                            for s5, okc in conds:
+                                if not okc:
+                                    c2.append((s5, False))
+                                    continue
+                                for s6, cv in self._ev(c, env4, s5, func, depth, raised):
+                                    for s7, b in self.truth(cv, s6, ""):
+                                        c2.append((s7, b))
+                            conds = c2
+                        for s5, okc in conds:
+                            if not okc:
+                                nxt.append((s5, acc3))
+                            else:
+                                for s6, acc6, _e6 in rec(gi + 1, env4, s5, acc3):
+                                    nxt.append((s6, acc6))
+                    cur = nxt
+                for s3, acc3 in cur:
+                    yield s3, acc3, env1
+
+        for s2, acc, _env in rec(0, env, st, ()):
+            if isinstance(e, ast.ListComp):
+                self._list_counter += 1
+                s3 = s2.copy()
+                s3.lists[self._list_counter] = tuple(acc)
+                results.append((s3, ListRef(self._list_counter)))
+            else:
+                results.append((s2, tuple(acc)))
+        return results + raised
 
     def _boolop(self, e: ast.BoolOp, env, st, func, depth):
         is_and = isinstance(e.op, ast.And)
@@ -228,7 +332,7 @@ class Interp:
         work = [(st, 0)]
         while work:
             s, i = work.pop()
-            for s1, v in self.eval(e.values[i], env, s, func, depth):
+            for s1, v in self._ev(e.values[i], env, s, func, depth, outs):
                 if i == len(e.values) - 1:
                     outs.append((s1, v))
                     continue
@@ -244,10 +348,12 @@ class Interp:
             return [(st, TOP)]
         op = e.ops[0]
         out = []
-        for s1, l in self.eval(e.left, env, st, func, depth):
-            for s2, r in self.eval(e.comparators[0], env, s1, func, depth):
+        for s1, l in self._ev(e.left, env, st, func, depth, out):
+            for s2, r in self._ev(e.comparators[0], env, s1, func, depth, out):
                 if isinstance(op, (ast.Is, ast.IsNot)) and r is None:
-                    if isinstance(l, Sym):
+                    if isinstance(l, Sym) and l.nonnull:
+                        out.append((s2, not isinstance(op, ast.Is)))
+                    elif isinstance(l, Sym):
                         for s3, b in self.atom(f"{l.text} is None", s2):
                             out.append((s3, b if isinstance(op, ast.Is) else not b))
                     elif isinstance(l, _Top):
@@ -299,7 +405,11 @@ class Interp:
                     return [(st, Bound(m.qualname, base))]
             return [(st, Sym(f"{base.name}.{name}"))]
         if isinstance(base, Sym):
-            return [(st, Sym(f"{base.text}.{name}"))]
+            # members of a package class (enum members, class attributes) are objects, not None
+            return [(st, Sym(f"{base.text}.{name}", base.nonnull and base.text in self.repo.classes))]
+        if isinstance(base, ExcVal):
+            v = base.get(name, TOP)
+            return [(st, v)]
         if isinstance(base, Pt):
             if name == "shape":
                 return [(st, ("shape", base.name))]
@@ -325,19 +435,71 @@ class Interp:
     # ------------------------------------------------------------------ calls
     def _call(self, e: ast.Call, env, st, func, depth):
         out = []
-        for s1, fn in self.eval(e.func, env, st, func, depth):
+        if isinstance(e.func, ast.Name) and e.func.id == "isinstance" and "isinstance" not in env and len(e.args) == 2 and not e.keywords:
+            r = self._isinstance(e, env, st, func, depth)
+            if r is not None:
+                return r
+        for s1, fn in self._ev(e.func, env, st, func, depth, out):
             for s2, args in self._seq([a for a in e.args], env, s1, func, depth, list):
+                if isinstance(args, Raised):
+                    out.append((s2, args))
+                    continue
                 kouts = [(s2, {})]
                 for kw in e.keywords:
                     nxt = []
                     for s3, acc in kouts:
-                        for s4, v in self.eval(kw.value, env, s3, func, depth):
+                        for s4, v in self._ev(kw.value, env, s3, func, depth, out):
                             d = dict(acc)
                             d[kw.arg] = v
                             nxt.append((s4, d))
                     kouts = nxt
                 for s5, kwargs in kouts:
                     out += self.apply(fn, args, kwargs, s5, func, depth, e)
+        return out
+
+    def _class_quals(self, t: ast.AST, func: Func) -> list[str] | None:
+        """Qualified names of the classes in an isinstance() class argument: C, (C, D), C | D."""
+        if isinstance(t, ast.Tuple):
+            out = []
+            for x in t.elts:
+                q = self._class_quals(x, func)
+                if q is None:
+                    return None
+                out += q
+            return out
+        if isinstance(t, ast.BinOp) and isinstance(t.op, ast.BitOr):
+            l, r = self._class_quals(t.left, func), self._class_quals(t.right, func)
+            return None if l is None or r is None else l + r
+        d = dotted(t)
+        if d is None:
+            return None
+        return [self.repo.resolve_in_module(func.module, d) or d]
+
+    def _isinstance(self, e: ast.Call, env, st, func, depth):
+        quals = self._class_quals(e.args[1], func)
+        if quals is None:
+            return None
+        out = []
+        for s1, v in self._ev(e.args[0], env, st, func, depth, out):
+            if isinstance(v, Obj) and v.cls in self.repo.classes:
+                out.append((s1, any(v.cls == q or self.repo.is_subclass(v.cls, q) for q in quals)))
+            elif isinstance(v, ExcVal):
+                out.append((s1, any(v.cls == q or (v.cls in self.repo.classes and self.repo.is_subclass(v.cls, q)) for q in quals)))
+            elif v is None or isinstance(v, (bool, int, float, str, tuple)):
+                names = {"NoneType" if v is None else type(v).__name__}
+                out.append((s1, any(q in names for q in quals)))
+            elif isinstance(v, Sym):
+                # one atom per class: the object is of that class or not
+                work = [(s1, False, 0)]
+                while work:
+                    s2, acc, i = work.pop()
+                    if acc or i == len(quals):
+                        out.append((s2, acc))
+                        continue
+                    for s3, b in self.atom(f"isinstance({v.text}, {quals[i]})", s2):
+                        work.append((s3, b, i + 1))
+            else:
+                return None
         return out
 
     def apply(self, fn, args, kwargs, st: State, func: Func, depth: int, node: ast.AST) -> list[tuple[State, Any]]:
@@ -358,12 +520,65 @@ class Interp:
             handled = self.hooks.method_call(self, f2, fn.self_obj, args, kwargs, st, depth)
             if handled is not None:
                 return handled
-            return self.call_func(f2, [fn.self_obj] + list(args), dict(fn.kwargs) | kwargs, st, depth + 1)
+            recv = [] if (f2.is_static or fn.self_obj is None) else [fn.self_obj]
+            return self.call_func(f2, recv + list(args), dict(fn.kwargs) | kwargs, st, depth + 1)
         if isinstance(fn, Sym):
+            if fn.text in ("any", "all") and len(args) == 1 and not kwargs:
+                items = self._concrete_items(args[0], st)
+                if items is not None:
+                    return self._any_all(items, fn.text == "any", st)
+            if fn.text in ("tuple", "list") and len(args) == 1 and self._concrete_items(args[0], st) is not None and isinstance(args[0], (tuple, ListRef)):
+                items = self._concrete_items(args[0], st)
+                if fn.text == "tuple":
+                    return [(st, tuple(items))]
+                self._list_counter += 1
+                s2 = st.copy()
+                s2.lists[self._list_counter] = tuple(items)
+                return [(s2, ListRef(self._list_counter))]
+            if fn.text == "bool" and len(args) == 1 and not kwargs:
+                return [(s2, b) for s2, b in self.truth(args[0], st, "")]
+            if self.track_raises and self._is_exception_class(fn.text):
+                return [(st, ExcVal(fn.text, tuple(args), tuple(sorted(kwargs.items(), key=lambda kv: kv[0]))))]
             return self.hooks.external_call(self, fn.text, args, kwargs, st, func, node)
         if isinstance(fn, _Top):
             return [(st, TOP)]
         raise AnalysisError(f"abstract interpreter: cannot call {fn!r} at {func.where(node)}")
+
+    def _any_all(self, items, is_any: bool, st: State):
+        out = []
+        work = [(st, 0)]
+        while work:
+            s1, i = work.pop()
+            if i == len(items):
+                out.append((s1, not is_any))
+                continue
+            for s2, b in self.truth(items[i], s1, ""):
+                if b == is_any:
+                    out.append((s2, is_any))
+                else:
+                    work.append((s2, i + 1))
+        return out
+
+    def _is_exception_class(self, q: str) -> bool:
+        if q in self.repo.classes:
+            seen = set()
+            stack = [q]
+            while stack:
+                c = stack.pop()
+                if c in seen:
+                    continue
+                seen.add(c)
+                k = self.repo.classes.get(c)
+                if k is None:
+                    if c.split(".")[-1] in ("Exception", "BaseException") or c.split(".")[-1].endswith("Error"):
+                        return True
+                    continue
+                stack += list(k.base_names)
+            return False
+        import builtins
+
+        obj = getattr(builtins, q, None)
+        return isinstance(obj, type) and issubclass(obj, BaseException)
 
     def call_func(self, f: Func, args: list, kwargs: dict, st: State, depth: int) -> list[tuple[State, Any]]:
         if depth > self.max_depth:
@@ -385,7 +600,10 @@ class Interp:
                 env[p.arg] = d.value if isinstance(d, ast.Constant) else TOP
         outs = []
         for s, flow, val, _env in self.exec_block(f.body, env, st, f, depth):
-            outs.append((s, val if flow == "return" else None))
+            if flow == "raise":
+                outs.append((s, Raised(val)))
+            else:
+                outs.append((s, val if flow == "return" else None))
         return outs
 
     # ------------------------------------------------------------- statements
@@ -426,13 +644,16 @@ class Interp:
         if isinstance(s, ast.Expr):
             if isinstance(s.value, ast.Constant):
                 return [(st, "next", None, env)]
-            return [(s1, "next", None, env) for s1, _v in self.eval(s.value, env, st, func, depth)]
+            return [(s1, "raise", _v.exc, env) if isinstance(_v, Raised) else (s1, "next", None, env) for s1, _v in self.eval(s.value, env, st, func, depth)]
         if isinstance(s, (ast.Assign, ast.AnnAssign)):
             if getattr(s, "value", None) is None:
                 return [(st, "next", None, env)]
             targets = s.targets if isinstance(s, ast.Assign) else [s.target]
             out = []
             for s1, v in self.eval(s.value, env, st, func, depth):
+                if isinstance(v, Raised):
+                    out.append((s1, "raise", v.exc, env))
+                    continue
                 env2 = dict(env)
                 s2 = s1
                 for t in targets:
@@ -442,6 +663,9 @@ class Interp:
         if isinstance(s, ast.AugAssign):
             out = []
             for s1, v in self.eval(s.value, env, st, func, depth):
+                if isinstance(v, Raised):
+                    out.append((s1, "raise", v.exc, env))
+                    continue
                 cur = self.eval(s.target, env, s1, func, depth)
                 for s2, c in cur:
                     nv = join(c, v) if isinstance(c, (Arr, Pt)) or isinstance(v, (Arr, Pt)) else TOP
@@ -451,16 +675,22 @@ class Interp:
         if isinstance(s, ast.Return):
             if s.value is None:
                 return [(st, "return", None, env)]
-            return [(s1, "return", v, env) for s1, v in self.eval(s.value, env, st, func, depth)]
+            return [(s1, "raise", v.exc, env) if isinstance(v, Raised) else (s1, "return", v, env) for s1, v in self.eval(s.value, env, st, func, depth)]
         if isinstance(s, ast.If):
             out = []
             for s1, c in self.eval(s.test, env, st, func, depth):
+                if isinstance(c, Raised):
+                    out.append((s1, "raise", c.exc, env))
+                    continue
                 for s2, b in self.truth(c, s1, ""):
                     out += self.exec_block(s.body if b else s.orelse, env, s2, func, depth)
             return out
         if isinstance(s, ast.Assert):
             out = []
             for s1, c in self.eval(s.test, env, st, func, depth):
+                if isinstance(c, Raised):
+                    out.append((s1, "raise", c.exc, env))
+                    continue
                 for s2, b in self.truth(c, s1, ""):
                     if b:
                         out.append((s2, "next", None, env))
@@ -473,6 +703,9 @@ class Interp:
         if isinstance(s, ast.For):
             out = []
             for s1, it in self.eval(s.iter, env, st, func, depth):
+                if isinstance(it, Raised):
+                    out.append((s1, "raise", it.exc, env))
+                    continue
                 if isinstance(it, ListRef):
                     items = s1.lists.get(it.id, ())
                 elif isinstance(it, (tuple, list)):
@@ -487,18 +720,204 @@ class Interp:
                             nxt.append((s2, flow, val, env2))
                             continue
                         s3, env3 = self._assign(s.target, item, dict(env2), s2, func, depth)
-                        nxt += self.exec_block(s.body, env3, s3, func, depth)
+                        for o in self.exec_block(s.body, env3, s3, func, depth):
+                            # `continue` ends this iteration only
+                            nxt.append((o[0], "next", None, o[3]) if o[1] == "continue" else o)
                     cur = nxt
-                out += cur
+                done = []
+                for s2, flow, val, env2 in cur:
+                    if flow == "break":
+                        done.append((s2, "next", None, env2))
+                    elif flow == "next" and s.orelse:
+                        done += self.exec_block(s.orelse, env2, s2, func, depth)
+                    else:
+                        done.append((s2, flow, val, env2))
+                out += done
             return out
+        if isinstance(s, ast.Break):
+            return [(st, "break", None, env)]
+        if isinstance(s, ast.Continue):
+            return [(st, "continue", None, env)]
+        if isinstance(s, (ast.With, ast.AsyncWith)):
+            cur = [(st, env)]
+            raised = []
+            for item in s.items:
+                nxt = []
+                for s1, env1 in cur:
+                    for s2, v in self._ev(item.context_expr, env1, s1, func, depth, raised):
+                        if item.optional_vars is not None:
+                            s3, env3 = self._assign(item.optional_vars, v if not isinstance(v, (Arr, Pt)) else v, dict(env1), s2, func, depth)
+                            nxt.append((s3, env3))
+                        else:
+                            nxt.append((s2, env1))
+                cur = nxt
+            out = [(s1, "raise", v.exc, env) for s1, v in raised]
+            for s1, env1 in cur:
+                out += self.exec_block(s.body, env1, s1, func, depth)
+            return out
+        if isinstance(s, ast.Try):
+            return self._exec_try(s, env, st, func, depth)
+        if isinstance(s, ast.Match):
+            return self._exec_match(s, env, st, func, depth)
         if isinstance(s, (ast.FunctionDef,)):
             env2 = dict(env)
             f2 = getattr(s, "_func", None)
             env2[s.name] = Bound(f2.qualname, None) if f2 is not None else TOP
             return [(st, "next", None, env2)]
         if isinstance(s, ast.Raise):
-            return []  # the path ends with an exception
+            if not self.track_raises:
+                return []  # the path ends with an exception
+            if s.exc is None:
+                return [(st, "raise", env.get("<active exception>", ExcVal("?")), env)]
+            out = []
+            for s1, v in self.eval(s.exc, env, st, func, depth):
+                if isinstance(v, Raised):
+                    out.append((s1, "raise", v.exc, env))
+                elif isinstance(v, ExcVal):
+                    out.append((s1, "raise", v, env))
+                elif isinstance(v, Sym):
+                    out.append((s1, "raise", ExcVal(v.text), env))
+                else:
+                    d = dotted(s.exc.func if isinstance(s.exc, ast.Call) else s.exc) or "?"
+                    out.append((s1, "raise", ExcVal(self.repo.resolve_in_module(func.module, d) or d), env))
+            return out
         raise AnalysisError(f"abstract interpreter: unsupported statement `{ast.unparse(s)[:60]}` in {func.qualname}")
+
+    def _exc_matches(self, exc: ExcVal, handler: ast.ExceptHandler, func: Func):
+        """True / False / None (unknown) whether ``handler`` catches ``exc``."""
+        if handler.type is None:
+            return True
+        quals = self._class_quals(handler.type, func)
+        if quals is None:
+            return None
+        for q in quals:
+            if q.split(".")[-1] in ("BaseException", "Exception"):
+                return True
+            if exc.cls == q or (exc.cls in self.repo.classes and self.repo.is_subclass(exc.cls, q)):
+                return True
+        if exc.cls == "?":
+            return None
+        return False
+
+    def _exec_try(self, s: ast.Try, env, st, func, depth):
+        outs = []
+        for s1, flow, val, env1 in self.exec_block(s.body, env, st, func, depth):
+            if flow == "raise":
+                handled = False
+                for h in s.handlers:
+                    m = self._exc_matches(val, h, func)
+                    if m is None:
+                        raise AnalysisError(f"abstract interpreter: cannot decide whether `except {ast.unparse(h.type) if h.type else ''}` catches {val.cls} at {func.where(h)}")
+                    if m:
+                        env2 = dict(env1)
+                        if h.name:
+                            env2[h.name] = val
+                        env2["<active exception>"] = val
+                        for o in self.exec_block(h.body, env2, s1, func, depth):
+                            e3 = dict(o[3])
+                            e3.pop("<active exception>", None)
+                            outs.append((o[0], o[1], o[2], e3))
+                        handled = True
+                        break
+                if not handled:
+                    outs.append((s1, flow, val, env1))
+            elif flow == "next" and s.orelse:
+                outs += self.exec_block(s.orelse, env1, s1, func, depth)
+            else:
+                outs.append((s1, flow, val, env1))
+        if s.finalbody:
+            fin = []
+            for s1, flow, val, env1 in outs:
+                for s2, f2, v2, env2 in self.exec_block(s.finalbody, env1, s1, func, depth):
+                    fin.append((s2, flow, val, env2) if f2 == "next" else (s2, f2, v2, env2))
+            outs = fin
+        return outs
+
+    def _exec_match(self, s: ast.Match, env, st, func, depth):
+        out = []
+        for s1, subj in self.eval(s.subject, env, st, func, depth):
+            if isinstance(subj, Raised):
+                out.append((s1, "raise", subj.exc, env))
+                continue
+            pending = [(s1, env)]
+            for case in s.cases:
+                nxt = []
+                for s2, env2 in pending:
+                    for s3, matched, env3 in self._match_pattern(case.pattern, subj, env2, s2, func, depth):
+                        if matched and case.guard is not None:
+                            for s4, g in self.eval(case.guard, env3, s3, func, depth):
+                                for s5, b in self.truth(g, s4, ""):
+                                    if b:
+                                        out += self.exec_block(case.body, env3, s5, func, depth)
+                                    else:
+                                        nxt.append((s5, env2))
+                        elif matched:
+                            out += self.exec_block(case.body, env3, s3, func, depth)
+                        else:
+                            nxt.append((s3, env2))
+                pending = nxt
+            for s2, env2 in pending:
+                out.append((s2, "next", None, env2))
+        return out
+
+    def _match_pattern(self, p: ast.AST, subj, env, st, func, depth):
+        """-> [(state, matched, env)]"""
+        if isinstance(p, ast.MatchAs):
+            if p.pattern is None:
+                env2 = dict(env)
+                if p.name:
+                    env2[p.name] = subj
+                return [(st, True, env2)]
+            outs = []
+            for s1, m, e1 in self._match_pattern(p.pattern, subj, env, st, func, depth):
+                if m and p.name:
+                    e1 = dict(e1)
+                    e1[p.name] = subj
+                outs.append((s1, m, e1))
+            return outs
+        if isinstance(p, ast.MatchOr):
+            outs = []
+            pending = [st]
+            for alt in p.patterns:
+                nxt = []
+                for s1 in pending:
+                    for s2, m, e2 in self._match_pattern(alt, subj, env, s1, func, depth):
+                        if m:
+                            outs.append((s2, True, e2))
+                        else:
+                            nxt.append(s2)
+                pending = nxt
+            return outs + [(s1, False, env) for s1 in pending]
+        if isinstance(p, (ast.MatchValue, ast.MatchSingleton)):
+            outs = []
+            vals = [(st, p.value)] if isinstance(p, ast.MatchSingleton) else self.eval(p.value, env, st, func, depth)
+            for s1, v in vals:
+                if isinstance(subj, Sym) and not isinstance(v, Sym) or isinstance(subj, Sym) and isinstance(v, Sym):
+                    rt = v.text if isinstance(v, Sym) else v
+                    if v is None:
+                        key = f"{subj.text} is None"
+                        if subj.nonnull:
+                            outs.append((s1, False, env))
+                            continue
+                    else:
+                        key = f"{subj.text} == {rt!r}"
+                    for s2, b in self.atom(key, s1):
+                        outs.append((s2, b, env))
+                elif isinstance(subj, _Top):
+                    outs += [(s1, True, env), (s1.copy(), False, env)]
+                elif isinstance(v, Sym):
+                    outs += [(s1, True, env), (s1.copy(), False, env)] if not isinstance(subj, (type(None), bool, int, float, str)) else [(s1, False, env)]
+                else:
+                    outs.append((s1, subj == v and type(subj) is type(v) or (subj is v), env))
+            return outs
+        if isinstance(p, ast.MatchClass) and not p.patterns and not p.kwd_patterns:
+            quals = self._class_quals(p.cls, func)
+            if quals is not None:
+                if isinstance(subj, Obj) and subj.cls in self.repo.classes:
+                    return [(st, any(subj.cls == q or self.repo.is_subclass(subj.cls, q) for q in quals), env)]
+                if isinstance(subj, Sym):
+                    return [(s2, b, env) for s2, b in self.atom(f"isinstance({subj.text}, {quals[0]})", st)]
+        raise AnalysisError(f"abstract interpreter: unsupported match pattern `{ast.unparse(p)[:60]}` in {func.qualname}")
 
     def _assign(self, t: ast.AST, v, env: dict, st: State, func: Func, depth: int):
         if isinstance(t, ast.Name):
